@@ -5,8 +5,16 @@ EXTENDS Field, TLC, Json, IOUtils
 VARIABLES l, nbad
 TLog == ndJsonDeserialize(IOEnv.TRACE_FILE)
 Px(e) == { <<e.px[i][1], e.px[i][2]>> : i \in DOMAIN e.px }
+FoldClauses(e) ==
+    LET px == Px(e)  fpx == { <<e.fpx[i][1], e.fpx[i][2]>> : i \in DOMAIN e.fpx } IN
+    [ fold_size |-> e.fw = FoldW(e.w, e.h, e.mx, e.line) /\ e.fh = e.mx,
+      \* a note pixel of the folded image is the note pixel of the tall image it stands for, and none is lost
+      fold_pixels |-> /\ \A p \in fpx : FoldSource(e.w, e.h, e.mx, e.line, p[1], p[2]) \in px
+                      /\ \A q \in px : \E x \in 0..(e.fw - 1), y \in 0..(e.fh - 1) :
+                              FoldSource(e.w, e.h, e.mx, e.line, x, y) = q /\ <<x, y>> \in fpx ]
 Clauses(e) ==
     IF e.exc # "" THEN [ no_exc |-> FALSE ]
+    ELSE IF e.op = "fold" THEN FoldClauses(e)
     ELSE LET ns == e.notes  c == e.cfg  px == Px(e) IN
     [ canvas |-> e.w = CanvasW(ns, c) /\ e.h = CanvasH(ns, c),
       \* nothing is drawn outside the rectangles the notes are entitled to
